@@ -413,8 +413,22 @@ def run(chk):
         recv = xb.origin(c.args[0])
         arg = xb.origin(c.args[1])
         def is_completion_props(o):
-            return any(k == "capture" and "completion_props" in str(v) for k, v in common.roots(o)) or \
-                any(k == "local" and xb.local_name(v) == "completion_props" for k, v in common.roots(o))
+            # by provenance, not by variable name: the value is (a capture of) the two-element array built under is_panicking()
+            def arrayish(x, d=0):
+                if d > 6:
+                    return False
+                if x[0] == "agg" and x[1].get("ak") == "array" and len(x[2]) == 2:
+                    return True
+                if x[0] == "phi":
+                    return bool(x[1]) and all(arrayish(y, d + 1) for y in x[1])
+                if x[0] in ("local",):
+                    ds = [dd for dd in b.defs().get(x[1], ()) if dd[2] == "assign" and dd[3].get("k") == "agg" and dd[3].get("ak") == "array"]
+                    return len(ds) == 2
+                return False
+            x = o
+            if x[0] == "capture" and xb.is_closure:
+                x = P.capture_origin(xb, x)
+            return arrayish(x)
         def is_span_props(o):
             return any(k == "param" and v >= 2 for k, v in common.roots(o)) and xb.is_closure
         if not is_completion_props(recv) or is_completion_props(arg):
